@@ -3,11 +3,11 @@ CONSTANTS
   PROFILE = "quick"
   MaxFiles = 2
   INDEX_OWN_PATH = TRUE
-  FIX_INDEX_OWN = FALSE
-  FIX_DIRNAME = FALSE
-  FIX_LENGTH = FALSE
+  FIX_INDEX_OWN = TRUE
+  FIX_DIRNAME = TRUE
+  FIX_LENGTH = TRUE
   SORT = "reverse"
-  KnownDeviations = {"index-own-path-not-registered", "dirname-extension-stripped", "declared-length-0"}
+  KnownDeviations = {}
   MOUNT_SET = "all"
   EMIT_MIN = 1
 INVARIANT Refines
